@@ -87,6 +87,7 @@ func genCompile() {
 	var convs []site
 	var idCheck, enumPrev, enumCheck string
 	var rangeCalls []string
+	var walkOrder []string // Module.Walk: how it ranges over the includes and what it sorts
 	for i, f := range files {
 		for _, d := range f.Decls {
 			fd, ok := d.(*ast.FuncDecl)
@@ -97,12 +98,24 @@ func genCompile() {
 			ast.Inspect(fd.Body, func(n ast.Node) bool {
 				switch x := n.(type) {
 				case *ast.RangeStmt:
+					if key == "Module.Walk" {
+						part := func(e ast.Expr) string {
+							if e == nil {
+								return "-"
+							}
+							return nodeText(fset, e)
+						}
+						walkOrder = append(walkOrder, fmt.Sprintf("range %s, %s over %s", part(x.Key), part(x.Value), nodeText(fset, x.X)))
+					}
 					if tv, ok := info.Types[x.X]; ok && tv.Type != nil {
 						if _, isMap := tv.Type.Underlying().(*types.Map); isMap {
 							sites = append(sites, site{names[i], key, nodeText(fset, x.X)})
 						}
 					}
 				case *ast.CallExpr:
+					if sel, ok := x.Fun.(*ast.SelectorExpr); ok && key == "Module.Walk" && nodeText(fset, sel.X) == "sort" {
+						walkOrder = append(walkOrder, nodeText(fset, x))
+					}
 					if sel, ok := x.Fun.(*ast.SelectorExpr); ok && sel.Sel.Name == "inRange" && key == "ConstantInt.Link" {
 						rangeCalls = append(rangeCalls, nodeText(fset, x))
 					}
@@ -165,5 +178,6 @@ func genCompile() {
 	l.str("enumPrevInit", enumPrev)
 	l.str("enumValueCheck", enumCheck)
 	l.strList("intRangeChecks", rangeCalls)
+	l.strList("walkOrder", walkOrder)
 	l.write("GenCompile")
 }
